@@ -10,6 +10,7 @@ import logging
 import os
 import shutil
 import urllib.request
+from http.client import HTTPException
 from pathlib import Path
 from typing import Optional
 from urllib.error import URLError
@@ -45,9 +46,16 @@ def download_license(spdx_identifier: str) -> str:
     url = urljoin(_SPDX_REPOSITORY_BASE_URL, "".join((spdx_identifier, ".txt")))
     _LOGGER.debug("downloading license from '%s'", url)
     # TODO: Cache result?
-    with urllib.request.urlopen(url) as response:
-        if response.getcode() == 200:
-            return response.read().decode("utf-8")
+    try:
+        with urllib.request.urlopen(url) as response:
+            if response.getcode() == 200:
+                return response.read().decode("utf-8")
+    except URLError:
+        raise
+    except (OSError, HTTPException) as error:
+        # The connection broke while the response was being read: urllib
+        # wraps failures to connect, not these.
+        raise URLError(error) from error
     raise URLError("Status code was not 200")
 
 
